@@ -21,7 +21,7 @@ TIE_A = ["Tables.export",
          # the exporter (theorems `code_*` in the block "Tie A: exporter" of Props/C14.lean)
          "code:fuzzylite.term.Term._parameters", "code:fuzzylite.term.Triangle.parameters", "code:fuzzylite.term.Constant.parameters",
          "code:fuzzylite.term.Linear.parameters", "code:fuzzylite.rule.Rule.text.fget",
-         "code:fuzzylite.exporter.FllExporter.term", "code:fuzzylite.exporter.FllExporter.norm",
+         "code:fuzzylite.exporter.FllExporter.format", "code:fuzzylite.exporter.FllExporter.term", "code:fuzzylite.exporter.FllExporter.norm",
          "code:fuzzylite.exporter.FllExporter.activation", "code:fuzzylite.exporter.FllExporter.defuzzifier",
          "code:fuzzylite.exporter.FllExporter.rule", "code:fuzzylite.exporter.FllExporter.variable",
          "code:fuzzylite.exporter.FllExporter.input_variable", "code:fuzzylite.exporter.FllExporter.output_variable",
